@@ -67,9 +67,11 @@ class Analysis:
         return self.defs[k]
 
     # -------------------------------------------------- tolerance-valued
-    def tolset(self, body):
-        """greatest fixpoint: locals every whole assignment of which is tolerance-valued"""
-        k = body.path
+    def tolset(self, body, given_params=None):
+        """greatest fixpoint: locals every whole assignment of which is tolerance-valued.
+        `given_params`: context-sensitive variant for helper summaries — the parameters that receive a tolerance at the
+        call site under consideration (instead of "at every call site")"""
+        k = body.path if given_params is None else (body.path, frozenset(given_params))
         if k in self.tolsets:
             return self.tolsets[k]
         self.tolsets[k] = set()     # recursion guard (pessimistic)
@@ -81,7 +83,7 @@ class Analysis:
                 cand.add(l)
         # params (a `mut` parameter has an implicit initial definition: the argument)
         for a in range(1, nargs + 1):
-            if self.param_tol(body, a):
+            if (a in given_params) if given_params is not None else self.param_tol(body, a):
                 cand.add(a)
         changed = True
         while changed:
@@ -130,6 +132,8 @@ class Analysis:
                         return True
         if not projs:
             return l in cur
+        if l in cur and all(p[0] in ("dc", "f") for p in projs) and (body.lty(l) or {}).get("s") == "std::option::Option<f64>":
+            return True          # `Some(x)` payload of a tolerance-valued Option
         # closure upvar
         if body.is_closure() and l == 1 and projs[0][0] == "f" and len(projs) == 1:
             return self.upvar_tol(body, projs[0][1])
@@ -176,7 +180,19 @@ class Analysis:
             return ta or tb
         if k == "unop" and rv["op"] == "Neg":
             return self.op_tol(body, rv["a"], cur)
+        if k == "agg" and rv["kind"].get("variant") == "Some" and len(rv.get("ops", [])) == 1:
+            return self.op_tol(body, rv["ops"][0], cur)      # Option<tolerance>
+        if k == "agg" and rv["kind"].get("variant") == "None":
+            return True                                       # carries no value
         return False
+
+    def ret_tol(self, cb, tol_params):
+        """the value returned by a helper is tolerance-valued (`fn relaxed_tolerance(tol, ..) -> Option<f64>`): every whole
+        assignment of its return place is, given which of its parameters receive a tolerance at this call site"""
+        s0 = (cb.lty(0) or {}).get("s", "")
+        if s0 not in ("f64", "std::option::Option<f64>") or cb.is_closure() or len(cb.blocks) > 60 or not tol_params:
+            return False
+        return 0 in self.tolset(cb, given_params=tol_params)
 
     def call_tol(self, body, t, cur):
         p, tr, name = callee(t)
@@ -187,6 +203,10 @@ class Analysis:
             if name == "div" and len(args) == 2:
                 return self.op_tol(body, args[0], cur)
             return any(self.op_tol(body, a, cur) for a in args)
+        cb = self.F.callee_body(t)
+        if cb is not None and cb.path.startswith(("feos", "feos_core", "feos_dft")) and cb.path != body.path \
+                and cb["arg_count"] == len(t["args"]):
+            return self.ret_tol(cb, {i + 1 for i, a in enumerate(t["args"]) if self.op_tol(body, a, cur)})
         return False
 
     def param_tol(self, body, argn):
